@@ -21,6 +21,16 @@ inductive Loop where
   | syncTelnet | asyncTelnet | syncSsh | asyncSsh
 deriving DecidableEq, Repr, Inhabited
 
+/-- a statement of the `except ScrapliConnectionError:` branch of a login loop, as far as the
+    translator recognises it (anything else is a TranslateError) -/
+inductive ErrStmt where
+  | sendReturn                 -- self.send_return()
+  | bumpAttempts               -- return_attempts += 1
+  | clearBuf                   -- authenticate_buf = b""
+  | resetCount (k : Kind)      -- <k>_count = 0
+  | cont                       -- continue
+deriving DecidableEq, Repr
+
 /-- one top-level alternative of a credential pattern, compiled with `re.I | re.M` and used
     with `re.search`:   `^`? `(.*…)?`-prefix  LITERAL  (`\s?$`)?   -/
 structure Branch where
